@@ -119,6 +119,11 @@ def _fname(f) -> str:
 
 
 def _sname(sym) -> str:
+    """Canonical universe name of a symbol object or of a registered symbol path (identity, never the simple name)."""
+    from mc.props import c19_universe as U
+    for name, cls in U.SYMBOLS.items():
+        if sym is cls or (isinstance(sym, str) and sym == f'{cls.__module__}.{cls.__qualname__}'):
+            return name
     return getattr(sym, '__name__', repr(sym))
 
 
@@ -141,7 +146,8 @@ class Impl:
         if self.kind == 'lazy':
             d = {}
             for s, (how, f) in defs.items():
-                d[f'{U.PATH}.{s}'] = f'{U.PATH}.{f}' if how == 'path' else U.FACTORIES[f]
+                cls = U.SYMBOLS[s]   # registered under module + qualified name (nested classes: 'OuterA.Item')
+                d[f'{cls.__module__}.{cls.__qualname__}'] = f'{U.PATH}.{f}' if how == 'path' else U.FACTORIES[f]
             self.containers.append(self.cls.instantiate(d))
         else:
             di = self.cls()
@@ -162,7 +168,7 @@ class Impl:
                 out[_sname(sym)] = {'f': None, 'inst': impl_desc(inst)}
         if self.kind == 'lazy':
             for path, f in _priv(di, 'LazyDI', 'definitions').items():
-                s = path.split('.')[-1]
+                s = _sname(path)
                 if s not in out:
                     out[s] = {'f': _fname(f), 'inst': None}
         return out
@@ -178,7 +184,7 @@ class Impl:
             'inv': sorted((k if isinstance(k, str) else _fname(k), tuple(sorted((p, _sname(t)) for p, t in v.items()))) for k, v in invocations.items()),
         }
         if self.kind == 'lazy':
-            st['def'] = sorted((p.split('.')[-1], _fname(f)) for p, f in _priv(di, 'LazyDI', 'definitions').items())
+            st['def'] = sorted((_sname(p), _fname(f)) for p, f in _priv(di, 'LazyDI', 'definitions').items())
         return st
 
 
